@@ -48,6 +48,7 @@ def units(tier):
     u += [{"name": f"mj-{n}", "timeout": to} for n in (MUJOCO_QUICK if quick else MUJOCO_ALL[::-1])]
     u += [{"name": f"finite{i}", "timeout": to} for i in range(2 if quick else 4)]
     u += [{"name": f"cc-{n}", "timeout": to} for n in CLASSIC]
+    u += [{"name": "gym-adapter", "timeout": to}]
     return u
 
 
@@ -1065,7 +1066,79 @@ def jnp_free(o):
     return np.asarray(o, np.float64)
 
 
+def u_gym_adapter(ctx):
+    """Gym-style step of an adapted Gymnasium environment (anchor compatibility/gym.py): a recording
+    gym.Wrapper logs what the underlying environment was actually asked to do. Each lerax step must cause
+    exactly one Gymnasium step, report that step's reward/flags/observation when no flag is raised, and
+    reset the underlying environment exactly when a flag was raised (then the observation is the reset one)."""
+    import gymnasium as gym
+    import jax.numpy as jnp
+    from lerax.compatibility.gym import GymToLeraxEnv
+    from lerax.wrapper import TimeLimit
+
+    class Rec(gym.Wrapper):
+        def __init__(self, env):
+            super().__init__(env)
+            self.log = []
+
+        def reset(self, **kw):
+            o, i = self.env.reset(**kw)
+            self.log.append(("reset", kw.get("seed"), np.asarray(o, np.float64).copy()))
+            return o, i
+
+        def step(self, a):
+            o, r, te, tr, i = self.env.step(a)
+            self.log.append(("step", np.asarray(a).copy(), np.asarray(o, np.float64).copy(), float(r), bool(te), bool(tr)))
+            return o, r, te, tr, i
+
+    specs = [("CartPole-v1", 7, None), ("CartPole-v1", 200, None), ("MountainCar-v0", 5, None), ("Pendulum-v1", 4, 9),
+             ("Acrobot-v1", 6, 3)][: ctx.n(4, 5)]
+    for gid, max_steps, outer_tl in specs:
+        rec = Rec(gym.make(gid, max_episode_steps=max_steps))
+        env = GymToLeraxEnv(rec)
+        name = f"GymToLeraxEnv({gid}[max{max_steps}])" + (f">TimeLimit({outer_tl})" if outer_tl else "")
+        if outer_tl:
+            env = TimeLimit(env, outer_tl)
+        state, obs, _ = env.reset(key=ctx.key(1))
+        n_prev = len(rec.log)
+        if [e[0] for e in rec.log] != ["reset"]:
+            ctx.violation("gym-adapter-reset-call-pattern", {"env": name, "log": [e[0] for e in rec.log]})
+        count = 0
+        for i in range(ctx.n(60, 200)):
+            a = env.action_space.sample(key=ctx.key(100 + i))
+            state, obs, rew, term, trunc, _ = env.step(state, a, key=ctx.key(1000 + i))
+            new = rec.log[n_prev:]
+            n_prev = len(rec.log)
+            count += 1
+            flagged = bool(term) or bool(trunc)
+            ctx.case({"env": name, "i": i, "flag": flagged}, nontrivial=flagged, cls=f"gym-adapter/{gid}")
+            ctx.monitor("gym_adapter_steps")
+            kinds = [e[0] for e in new]
+            want_kinds = ["step", "reset"] if flagged else ["step"]
+            if kinds != want_kinds:
+                ctx.violation("gym-adapter-underlying-env-not-stepped-once-reset-only-on-flag",
+                              {"env": name, "i": i, "flags": [bool(term), bool(trunc)], "underlying_calls": kinds, "want": want_kinds})
+                break
+            st = new[0]
+            inner_trunc = st[5]
+            want_trunc = inner_trunc or (outer_tl is not None and count >= outer_tl)
+            if abs(float(rew) - st[3]) > 1e-6 * (1 + abs(st[3])) or bool(term) != st[4] or bool(trunc) != want_trunc:
+                ctx.violation("gym-adapter-step-reward-or-flags-not-of-this-transition",
+                              {"env": name, "i": i, "got": [float(rew), bool(term), bool(trunc)], "want": [st[3], st[4], want_trunc]})
+            want_obs = new[1][2] if flagged else st[2]
+            if not np.allclose(np.asarray(obs, np.float64), want_obs, rtol=1e-6, atol=1e-6):
+                ctx.violation("gym-adapter-observation-not-of-returned-state",
+                              {"env": name, "i": i, "flagged": flagged, "got": np.asarray(obs), "want": want_obs})
+            if flagged:
+                ctx.monitor("gym_adapter_episode_ends")
+                count = 0
+    ctx.require("gym_adapter_steps", 100)
+    ctx.require("gym_adapter_episode_ends", 5)
+
+
 def run_unit(name, ctx):
+    if name == "gym-adapter":
+        return u_gym_adapter(ctx)
     if name.startswith("finite"):
         return u_finite(ctx, int(name[len("finite"):]))
     if name.startswith("cc-"):
